@@ -26,7 +26,7 @@ DEFAULT_KNOBS = {
     'pk_spelling': 'random',  # pk | primary key | legacy | random
     'ref_form': 'am',        # am | short | block | random
     'addr': 'random',        # canon | random  (full / bare / public. / alias)
-    'comments': 'above',     # none | above | random   (how am comments are written)
+    'comments': 'random',    # none | above | random   (am comments above the element or trailing its line)
     'note_decor': 'random',  # none | random  (extra indentation / blank lines inside ''' notes)
     'brace_newline': 0.15,   # probability that `{` goes on its own line
     'final_newline': 'random',
@@ -186,8 +186,21 @@ class Writer:
         mode = self.k['comments']
         if mode == 'none':
             return
+        if '\n' not in text and '*/' not in text and self.rng.random() < 0.2:
+            self.out.append(self.indent() + '/* ' + text + '*/')
+            return
         for ln in text.split('\n'):
             self.out.append(self.indent() + '//' + (' ' if self.rng.random() < 0.8 else '') + ln)
+
+    def place_comment(self, ctx, text):
+        """for elements that take a comment above or trailing: writes it above now and
+        returns '', or returns the trailing text to append to the element's line"""
+        if text is None or self.k['comments'] == 'none':
+            return ''
+        if '\n' in text or self.k['comments'] == 'above' or self.rng.random() < 0.5:
+            self.comment_lines(ctx, text)
+            return ''
+        return self.trailing(text)
 
     # ------------------------------------------------------------------ names
     def table_ref(self, doc, ti):
@@ -272,6 +285,7 @@ class Writer:
         return self.sp() + '/* ' + text + '*/'
 
     def column(self, doc, c):
+        tail = self.place_comment('table_body', c.comment)
         head = self.ident(c.name) + self.gap('col:name-type') + self.type_text(doc, c.type)
         items = []
         pk_sp = self.k['pk_spelling']
@@ -315,11 +329,11 @@ class Writer:
             text += self.sp() + w
         if items:
             text += self.gap('col:before-settings') + self.settings(items, 'column')
-        text += self.trailing(c.comment)
-        self.emit('table_body', text, eol=c.comment is None)
+        text += tail
+        self.emit('table_body', text, eol=not tail)
 
     def index(self, doc, i):
-        self.comment_lines('indexes_body', i.comment)
+        tail = self.place_comment('indexes_body', i.comment)
         subj = []
         for kind, s in i.subjects:
             subj.append('`' + s + '`' if kind == 'expr' else self.ident(s))
@@ -342,7 +356,7 @@ class Writer:
             self.rng.shuffle(items)
         if items:
             text += self.gap('index:before-settings') + self.settings(items, 'index')
-        self.emit('indexes_body', text)
+        self.emit('indexes_body', text + tail, eol=not tail)
 
     def table(self, doc, t):
         self.comment_lines('top', t.comment)
@@ -416,11 +430,11 @@ class Writer:
         self.open_brace('top', self.kw('Enum') + self.sp() + name, 'enum:before-brace')
         self.depth += 1
         for it in e.items:
-            self.comment_lines('enum_body', it.comment)
+            tail = self.place_comment('enum_body', it.comment)
             text = self.ident(it.name)
             if it.note is not None:
                 text += self.gap('enumitem:before-settings') + self.settings([self.note_setting(it.note)], 'enumitem')
-            self.emit('enum_body', text)
+            self.emit('enum_body', text + tail, eol=not tail)
         self.depth -= 1
         self.emit('enum_body', '}')
 
@@ -431,7 +445,7 @@ class Writer:
         return tr + '.(' + (',' + self.sp()).join(self.ident(c) for c in cols) + ')'
 
     def ref(self, doc, r):
-        self.comment_lines('top', r.comment)
+        tail = self.place_comment('top', r.comment)
         form = self.k['ref_form']
         if form == 'am':
             form = r.form
@@ -451,11 +465,11 @@ class Writer:
         if r.name is not None:
             head += self.sp() + self.ident(r.name)
         if form == 'short':
-            self.emit('top', head + ':' + self.sp() + body)
+            self.emit('top', head + ':' + self.sp() + body + tail, eol=not tail)
         else:
             self.open_brace('top', head, 'ref:before-brace')
             self.depth += 1
-            self.emit('ref_block', body)
+            self.emit('ref_block', body + tail, eol=not tail)
             self.depth -= 1
             self.emit('ref_block', '}')
 
